@@ -45,6 +45,20 @@ CHECKS["C03"] = dict(
          "thorough tier; clean stop only",
     design_ref="5 C03")
 
+CHECKS["C05"] = dict(
+    engine="raftmeta",
+    technique="TLA+ spec RaftMeta.tla (abstract record + file-length/start-up rule layer; TLC: Durable, NoVoteRegress), "
+              "complete enumeration of short behaviours + TLC simulation replayed on FileStore on a mini node across "
+              "process restarts",
+    text="TLC checks that the index-file design (one record rewritten in place, file never shrinks, start-up rule) keeps "
+         "term/vote/membership/addresses across Reopen for every interleaving of the six writers; the pre-fix start-up "
+         "rule (<= 20 bytes = new) is kept as a negative control that must fail. Every length-3 behaviour of a small "
+         "alphabet plus simulated longer ones are replayed on the real store; get_initial_state, "
+         "get_membership_config and get_target_addr are compared after every step, reopen = new OS process.",
+    note="clean stop only; the local node is never a member so the dormant Raft core writes nothing; "
+         "rollover-driven catalogue rewrites are represented by first-file creation and compaction",
+    design_ref="5 C05")
+
 NOT_YET = {}
 
 
